@@ -110,7 +110,7 @@ def make_family(name, reg0, nroots, tier, hash_order="insertion", compact_as=Non
 
 def families(eng, tier, seed):
     C = corpus(); fams = []
-    for n in ("reach", "rec", "tree", "mutual", "generics", "modules", "enum", "containers", "compact", "phantom", "collections", "bits_generic"):
+    for n in ("reach", "rec", "tree", "mutual", "generics", "modules", "enum", "containers", "compact", "phantom", "collections", "bits_generic", "two_roles"):
         r = C[n]; np_ = len(item_paths(r))
         nroots = 2 if (np_ <= 12 or tier == "thorough") else 1
         fams.append(make_family("derives-%s" % n, r, nroots, tier))
